@@ -87,7 +87,12 @@ type c14Callbacks struct {
 	node   *c14State
 	// blocking: OnData keeps reading whole messages, parked inside ReadBytes between messages
 	blocking bool
+	// linger: OnData keeps working on the zero-copy bytes it was given for a while (a handler that parses in place); the
+	// session's teardown has to wait for a running OnData before it releases the memory
+	linger bool
 }
+
+var c14Sink uint64
 
 func (cb *c14Callbacks) OnData(r BufferReader) {
 	// blocking style: keep reading whole messages, i.e. between messages this invocation is parked inside ReadBytes
@@ -96,6 +101,16 @@ func (cb *c14Callbacks) OnData(r BufferReader) {
 		b, err := r.ReadBytes(cb.msg)
 		if err != nil {
 			return
+		}
+		if cb.linger {
+			var sum uint64
+			for t0 := time.Now(); time.Since(t0) < 12*time.Millisecond; {
+				for _, x := range b {
+					sum += uint64(x)
+				}
+				time.Sleep(200 * time.Microsecond)
+			}
+			atomic.AddUint64(&c14Sink, sum)
 		}
 		if cb.echo {
 			cb.st.BufferWriter().WriteBytes(b)
@@ -324,7 +339,7 @@ func c14Node(args []string) {
 				break
 			}
 			if cf.Callbacks && i%2 == 1 {
-				cb := &c14Callbacks{st: st, msg: cf.MsgSize, node: node, blocking: i%4 == 3}
+				cb := &c14Callbacks{st: st, msg: cf.MsgSize, node: node, blocking: i%4 == 3, linger: i%4 == 1}
 				st.SetCallbacks(cb)
 				if st.IsOpen() {
 					// only a stream that was still open once its callbacks were installed owes a close callback
@@ -369,7 +384,7 @@ func c14Node(args []string) {
 				// callback mode for the streams the client also runs in callback mode (its odd-indexed initial streams, ids 3, 5, …);
 				// streams opened later by the client's churn are always served synchronously
 				if id := st.StreamID(); cf.Callbacks && int(id) <= cf.Streams+1 && (id-2)%2 == 1 {
-					cb := &c14Callbacks{st: st, msg: cf.MsgSize, echo: true, node: node, blocking: st.StreamID()%4 == 1}
+					cb := &c14Callbacks{st: st, msg: cf.MsgSize, echo: true, node: node, blocking: st.StreamID()%4 == 1, linger: st.StreamID()%4 == 3 || st.StreamID()%8 == 6}
 					st.SetCallbacks(cb)
 					if st.IsOpen() {
 						repMu.Lock()
@@ -461,6 +476,9 @@ func c14Node(args []string) {
 	}
 	rep.CanaryLateMs = atomic.LoadInt64(&can.maxLate) / 1e6
 	rep.TeardownDone = waitTeardown(s, 15*time.Second)
+	if !rep.TeardownDone {
+		rep.Note += "teardown stuck: " + truncate(goroutineDump(), 9000)
+	}
 	atomic.StoreUint32(&deathSeen, 1)
 	// every worker must come back (pending calls fail)
 	done := make(chan struct{})
@@ -768,6 +786,10 @@ func f2Classify(stderr, log string, directed string) (bool, string) {
 		first = first[:j]
 	}
 	if strings.Contains(first, "epollDispatcher") || strings.Contains(first, "handleEvents") || strings.Contains(first, "(*Session).Close") {
+		return false, ""
+	}
+	if strings.Contains(first, "fillDataToReadBuffer") || strings.Contains(first, "OnData") {
+		// the library's own callback goroutine: the teardown waits for a running OnData, so a fault in there is not F2
 		return false, ""
 	}
 	fatal := strings.Contains(stderr, "nil pointer dereference") || strings.Contains(stderr, "unexpected fault address") ||
@@ -1140,6 +1162,13 @@ func checkDeath(c *checkCtx) {
 		rng := caseRand(c.seed, 499999)
 		rng.Shuffle(len(cases), func(i, j int) { cases[i], cases[j] = cases[j], cases[i] })
 		cases = cases[:52]
+	}
+	if c.quick() {
+		// always present in the quick subset: the peer goes away while the survivor's echoing callbacks are at work
+		for i := 0; i < 8; i++ {
+			add(c14Case{Kind: "peer-fault", SurvivorRole: "server", Memfd: i%2 == 1, Streams: 6 + i%3, Callbacks: true, Action: []string{"sever", "die"}[i%2],
+				Point: "FillAdded", K: int64([]int{9, 17, 25, 33}[i%4])})
+		}
 	}
 	for i := 0; i < c.pick(6, 60); i++ {
 		add(c14Case{Kind: "external-kill", SurvivorRole: []string{"server", "client"}[i%2], Memfd: i%4 < 2, Streams: 4 + i%5, Callbacks: i%3 != 1})
